@@ -213,34 +213,13 @@ func guarded(f func() string) string {
 	return out
 }
 
-// ---------------------------------------------------------------- which pending fixes the tree carries
+// ---------------------------------------------------------------- the state of the code the model is pinned to
 //
-// Four fixed probes; the answer is named in every op line (`cfg=<treeNeg><treeOther><dotOther><nilSafe>`, 1 = fixed)
-// and selects the transcription the Lean driver runs (Model/IssuesGo.lean `Cfg`).  The spec oracle does not read it.
+// Every op line names the state of the three places Model/IssuesGo.lean keeps two transcriptions of
+// (`cfg=<treeNeg><treeOther><dotOther><nilSafe>`, 1 = fixed).  Since c65f4c0 / 6ff3a13 / e8b2b50 are in /repo the
+// model is PINNED to the fixed code: a tree that behaves like the old code again differs from the model.
 
-var cfgToken = "cfg=0000"
-
-func probeCfg() {
-	bit := func(ok bool) string {
-		if ok {
-			return "1"
-		}
-		return "0"
-	}
-	one := func(el any) *gozod.ZodError {
-		return &gozod.ZodError{Issues: []core.ZodIssue{mk(core.Custom, []any{el}, "m")}}
-	}
-	treeNeg := guarded(func() string { return rTree(gozod.TreeifyError(one(-1))) }) != "panic"
-	treeOther := guarded(func() string {
-		t := gozod.TreeifyError(one(1.5))
-		return strconv.Itoa(len(t.Errors))
-	}) == "0"
-	dotOther := guarded(func() string { return gozod.ToDotPath([]any{1.5}) }) != "[1.5]"
-	var nz *gozod.ZodError
-	nilSafe := guarded(func() string { return rFlat(gozod.FlattenError(nz)) }) != "panic"
-	cfgToken = "cfg=" + bit(treeNeg) + bit(treeOther) + bit(dotOther) + bit(nilSafe)
-	lastPanic = ""
-}
+const cfgToken = "cfg=1111"
 
 func observe(ze *gozod.ZodError) string {
 	fl := guarded(func() string { return rFlat(gozod.FlattenError(ze)) })
@@ -770,8 +749,6 @@ func run(c hx.Config) error {
 	}
 
 	// corpus: the shapes of the first sightings
-	probeCfg()
-	o.Count("probed:" + cfgToken)
 	corpus := [][]core.ZodIssue{
 		{mk(core.Custom, []any{-1}, "m1")},
 		{mk(core.Custom, []any{"a", 1.5}, "m1"), mk(core.Custom, []any{"a"}, "m2")},
